@@ -173,9 +173,10 @@ def finish(ctx, mod, wall):
     for o in ctx.obligations[:3]:
         if o.to_json() not in samples:
             samples.append(o.to_json())
-    os.makedirs(os.path.join(VERIF, "evidence"), exist_ok=True)
-    os.makedirs(os.path.join(VERIF, "reports"), exist_ok=True)
-    report_path = os.path.join(VERIF, "reports", "%s-%s.json" % (ctx.prop, ctx.tier))
+    out_dir = os.environ.get("VCHECK_OUT") or VERIF   # VCHECK_OUT: self-test workers write evidence/reports elsewhere
+    os.makedirs(os.path.join(out_dir, "evidence"), exist_ok=True)
+    os.makedirs(os.path.join(out_dir, "reports"), exist_ok=True)
+    report_path = os.path.join(out_dir, "reports", "%s-%s.json" % (ctx.prop, ctx.tier))
     ev = {
         "property_id": ctx.prop,
         "tier": ctx.tier,
@@ -208,7 +209,7 @@ def finish(ctx, mod, wall):
         "wall_s": round(wall, 2),
         "violations": len(violations),
     }
-    with open(os.path.join(VERIF, "evidence", ctx.prop + ".json"), "w") as f:
+    with open(os.path.join(out_dir, "evidence", ctx.prop + ".json"), "w") as f:
         json.dump(ev, f, indent=1, default=str)
     for o, k in known_hits:
         print("KNOWN-FINDING: property=%s rule=%s instance=%s %s" % (ctx.prop, o.rule, o.key, k.get("what", "")))
